@@ -408,7 +408,15 @@ func ruleC01CallTriple(c *Ctx, r *Rep) {
 			if !ok || sw.Tag == nil {
 				return true
 			}
-			if ta, ok := unparen(sw.Tag).(*ast.TypeAssertExpr); ok && typeStr(vm.info.TypeOf(ta.Type)) == "string" {
+			// a switch over the native's name: any string-typed tag whose arms record a path
+			recordsPath := false
+			ast.Inspect(sw.Body, func(q ast.Node) bool {
+				if call, ok := q.(*ast.CallExpr); ok && vm.envMethod(call) == "paths.push" {
+					recordsPath = true
+				}
+				return true
+			})
+			if t := vm.info.TypeOf(sw.Tag); t != nil && typeStr(t) == "string" && recordsPath {
 				for _, s := range sw.Body.List {
 					for _, e := range s.(*ast.CaseClause).List {
 						if v, ok := constString(vm.info, e); ok {
@@ -449,6 +457,10 @@ func ruleC01CallTriple(c *Ctx, r *Rep) {
 		})
 	}
 	a, b := keysOf(vmNames), keysOf(ccNames)
+	if len(a) == 0 || len(b) == 0 {
+		r.Undecided("nameset", token.NoPos, "the name switch of the VM's opcall clause (%v) or of compileCall (%v) was not recognised", a, b)
+		return
+	}
 	r.Check(len(a) >= 3 && strings.Join(a, ",") == strings.Join(b, ","), "nameset", token.NoPos, "natives the VM records paths for %v = natives compileCall brackets with opexpbegin/opexpend %v", a, b)
 }
 
